@@ -177,4 +177,54 @@ CHECKS["C03"] = {
     "level_note": "Trusted: the reference rule in harness/c03_gate.cpp (reference()).",
 }
 
+_COLL_RULE = 'a scripted writer applies every list of <= L mutations per cycle over T cycles to a real output of each shape through the typed Out<> API: TS<Int> {set 1, set 2, invalidate}, TSS<Int> {+1,+2,-1,-2,clear, bulk add/remove of 9 keys (crosses slot-capacity boundaries)}, TSD<Int,TS<Int>> {set/erase of two keys, clear, bulk}, TSD<Int,TSS<Int>> {add/remove inside a keyed set, erase key}, TSL<TS<Int>,2>, TSB{a,b}, TSW<Int,3,2> (one push per cycle); same-cycle add+remove, remove+re-add and erase+re-add included. Observers in the same graph: the producer view every cycle, two passive consumers woken every cycle by their own scheduler, an active typed mirror, a consumer bound to child 0 of TSL/TSB. '
+
+CHECKS["C05"] = {
+    "title": "Collection deltas are coherent with collection values at every tick",
+    "level": "model_checking",
+    "technique": "exhaustive enumeration of mutation histories on real collection outputs; every tick's typed value/added/removed/modified view "
+                 "compared with a reference container (std::set/map/deque) and its net per-cycle change",
+    "design_ref": "DESIGN.md 2/C05",
+    "parts": [{"name": "coll", "exe": "c05_coll", "sources": ["c05_coll.cpp"], "sub": "c05", "shards": 16}],
+    "rule": _COLL_RULE + "Oracle (C05): at every tick the typed value equals the reference container; added/removed are exactly the NET change of the "
+            "cycle (so added and removed are disjoint, added are present, removed are absent and were present, cancelling mutations leave no trace); "
+            "a removed dictionary entry's value is readable during the removing cycle; the window equals the last 3 pushes in order, valid from the "
+            "first push and all_valid from the minimum count. states = distinct observed per-cycle (flags,value) traces; transitions = consumer ticks "
+            "checked; non-trivial = histories with several mutations in one cycle or a tick that both adds and removes.",
+    "bounds": {"quick": "L<=2 x T=3 (collections), T=5 (TS), T=4 (TSL/TSB), T=6 (TSW); plus L<=3 x T=2", "thorough": "L<=2 x T=4 (collections), T=6 (TS), T=5 (TSL/TSB), T=8 (TSW); plus L<=3 x T=2"},
+    "min_counters": {"quick": {"nontrivial": 100000, "states": 20000, "coll.cases_tsds": 10000}},
+    "assumptions": COMMON_ASSUMPTIONS + [
+        "A key erased and added again in the same cycle is the same element (it keeps its contents): the cancelling pair leaves no trace, as the statement says.",
+        "For TSW, valid() holds from the first push and the minimum count gates all_valid() — pinned by the repository's own Python suite "
+        "(test_to_window_validity_and_absent_removed_value); the check reads 'valid only once its minimum count is reached' as all_valid.",
+        "Capacity growth beyond 12 keys and duration windows are not explored.",
+    ],
+    "level_text": "Every execution of the bounded mutation-history space is a trace of the real containers validated tick by tick against a reference container.",
+    "level_note": "Trusted: the reference containers in harness/c05_coll.cpp (model_cycle).",
+}
+
+CHECKS["C04"] = {
+    "title": "modified / valid / last-modified-time tell the truth for producers and consumers",
+    "level": "model_checking",
+    "technique": "exhaustive enumeration of write histories on real outputs with producer and consumer views sampled in EVERY cycle; flags compared "
+                 "with a reference write log and consumers compared with the producer",
+    "design_ref": "DESIGN.md 2/C04",
+    "parts": [{"name": "flags", "exe": "c05_coll", "sources": ["c05_coll.cpp"], "sub": "c04", "shards": 16}],
+    "rule": _COLL_RULE + "Oracle (C04), evaluated in every cycle (written or not): modified is true iff the reference performed an effective write in "
+            "that cycle (false when nothing was written); valid from the first write until an explicit invalidation; last_modified_time equals the "
+            "latest cycle in which modified was true; both passive consumers equal the producer on value, modified, valid, all_valid and "
+            "last_modified_time; the active consumer is evaluated iff modified; a non-empty delta is readable only in the producing cycle; for "
+            "TSL/TSB the parent is modified iff some child is, children agree between producer, consumer and a consumer bound to the child. "
+            "states = distinct observed per-cycle (flags,value) traces; transitions = consumer ticks checked.",
+    "bounds": {"quick": "as C05 quick", "thorough": "as C05 thorough"},
+    "min_counters": {"quick": {"nontrivial": 100000, "states": 20000, "flags.cases_ts": 10000}},
+    "assumptions": COMMON_ASSUMPTIONS + [
+        "Cycles whose only operations are ineffective (removing an absent key) are a don't-care for modified/valid: whether opening a mutation scope is a write is not stated.",
+        "In the cycle of an explicit invalidation only validity and value are compared between producer and consumer (the consumer is notified of the invalidation).",
+        "REF-shaped endpoints are C13's subject.",
+    ],
+    "level_text": "Every execution of the bounded write-history space is validated cycle by cycle (including idle cycles) against the reference write log, and every consumer view against the producer view.",
+    "level_note": "Trusted: the reference model in harness/c05_coll.cpp; TSOutputView/TSInputView accessors as the observation points.",
+}
+
 NOT_APPLICABLE = {}
